@@ -840,6 +840,14 @@ class Interp:
                     del obj[idx]
                     continue
                 if not hasattr(obj, "py_delitem"):
+                    if isinstance(obj, (SObj, SRef)):
+                        mb = self.registry.method_binding(obj.cls, "__delitem__")
+                        if mb is not None:
+                            mb(cx, obj, idx)
+                            continue
+                        f = self.lookup_attr(cx, obj, "__delitem__")
+                        self.call_value(cx, fr, f, [idx], {})
+                        continue
                     raise Unsupported(f"del on {obj!r}")
                 obj.py_delitem(cx, idx)
             else:
@@ -2060,6 +2068,6 @@ def make_builtins(interp):
 
     B["NotImplemented"] = NOT_IMPLEMENTED
     B["True"], B["False"], B["None"] = True, False, None
-    for tname in ("bytes", "object", "float", "frozenset", "bytearray"):
+    for tname in ("bytes", "object", "float", "frozenset", "bytearray", "Any", "Optional", "Dict", "List", "Set", "Tuple", "Union", "Type", "Callable"):
         B[tname] = SClass(tname)
     return B
